@@ -810,6 +810,28 @@ def c12(tier, rng, rep, only=None):
                 rep.violation("float declaration %s with `finite` may not derive Eq / Ord: %s" % (d.id, dropped_e[d.id][0][:160]), payload, no_input=True)
             elif (d.id in dropped_e) != ge.model_verdict.get(d.id, "").startswith("reject"):
                 rep.violation("model and rustc disagree on %s: model %s" % (d.id, ge.model_verdict.get(d.id)), payload, no_input=True)
+    n_arb = 0
+    if only is None:
+        adecls = [d for d in corpus.gen_arb_floats(rng.fork("arbfloat"), tier) if "F" in getattr(d, "shape", [])]
+        ga = flows.GuardRun("arb" if tier == "quick" else "arb_t", corpus.gen_arb_ints(rng.fork("arbint"), tier) + corpus.gen_arb_floats(rng.fork("arbfloat"), tier)
+                            + corpus.gen_arb_strs(rng.fork("arbstr"), tier))
+        keep = {d.id for d in adecls}
+        for d in ga.decls:
+            if d.id in keep:
+                ins = corpus.arb_byte_inputs(d, rng.fork(d.id), tier)
+                ga.add_ops(d, [("arb", "(b%s)" % "".join(" %d" % b_ for b_ in bs)) for bs in ins])
+        ga.build()
+        ga.run_impl()
+        for c in ga.cases:
+            if c.impl is None or not c.impl.startswith("ok (f "):
+                continue
+            n_arb += 1
+            bits = int(c.impl[6:-1])
+            is64 = FLOAT_TYPES[c.decl.inner]
+            expo = (bits >> 52) & 0x7ff if is64 else (bits >> 23) & 0xff
+            if expo == (0x7ff if is64 else 0xff):
+                rep.violation("arbitrary(%s) of %s, which declares `finite`, returned the non-finite value %s" % (c.arg, c.decl.id, c.impl), case_payload(c, ga))
+    rep.coverage["arbitrary_values_of_finite_types"] = n_arb
     rep.coverage["eq_ord_gate_declarations"] = n_gate
     n = npairs = ntriples = 0
     for d in g.decls:
@@ -915,7 +937,7 @@ def c13(tier, rng, rep, only=None):
                     rep.violation("%s does not expose the stored inner value for input %s of %s" % (k, c.arg, c.decl.id), case_payload(c, g))
         else:
             npairs += 1
-            for a, b_ in (("eq", "ieq"), ("ne", "ine"), ("self", "iself"), ("pcmp", "ipcmp"), ("ops", "iops"), ("cmp", "icmp"), ("mm", "imm")):
+            for a, b_ in (("eq", "ieq"), ("ne", "ine"), ("self", "iself"), ("pcmp", "ipcmp"), ("ops", "iops"), ("cmp", "icmp"), ("mm", "imm"), ("cf", "icf")):
                 if a in kv:
                     fields[a] = fields.get(a, 0) + 1
                     if kv[a] != kv[b_]:
@@ -1122,6 +1144,10 @@ def c11(tier, rng, rep, only=None):
                     ops.append(("from", a))
                 if "FromStr" in info.traits and d.inner == "String":
                     ops.append(("from_str_s", a))
+                if "FromStr" in info.traits and d.family() == "int":
+                    ops.append(("from_str", val_sexp(("s", str(v[1])))))
+                if "FromStr" in info.traits and d.family() == "float" and not is_nan_bits(v[1], FLOAT_TYPES[d.inner]):
+                    ops.append(("from_str", val_sexp(("s", float_text(v[1], FLOAT_TYPES[d.inner])))))
                 if d.inner == "String" and "TryFrom" in info.traits:
                     ops.append(("try_from_ref", a))
                 if d.inner == "String" and "From" in info.traits:
@@ -1251,6 +1277,9 @@ def json_docs(d, rng, tier):
             vals = vals[:: max(1, len(vals) // 60)]
         for i, v in enumerate(vals):
             docs.append(js.dumps(v[1], ensure_ascii=(i % 2 == 0)))
+        for long_ in ("\u0436" * 40, "a" * 23 + "\U0001F600" * 6, "ab " + "\u00df" * 30, " " * 26 + "\u20ac" * 9, "A" * 64,
+                      "x" * 22 + "\u00e9\u00e9\u00e9" + "y" * 10, "\U0001F600" * 7):
+            docs.append(js.dumps(long_, ensure_ascii=False))
     else:
         docs += [js.dumps(v[1]) for v in vals]
     return docs + junk
@@ -1456,6 +1485,7 @@ def c08(tier, rng, rep, only=None):
     else:
         runs.append(("verdict" if tier == "quick" else "verdict_t", verdicts.gen_verdict_decls(rng.fork("v"), tier) +
                      guardcorpus.build_corpus(rng.fork("g"), "quick")[::7], runner.FEATURES_ALL))
+        runs.append(("eqgate", verdicts.gen_c12_decls(rng.fork("e"), tier), runner.FEATURES_ALL))
         runs.append(("verdict_nofeat", verdicts.gen_feature_decls(rng.fork("w"), tier), ["std"]))
         # every feature gate on its own: an item is accepted iff ITS feature is enabled
         for f_ in ("serde", "regex", "arbitrary", "new_unchecked"):
@@ -1572,7 +1602,7 @@ def c02(tier, rng, rep, only=None):
             return [("f", x) for x in out]
         return [("s", "a" * k_) for k_ in (v - 1, v, v + 1, v + 2) if k_ >= 0]
 
-    layout_inputs = {"i32": [("i", x) for x in (-5, 0, 3, 4, 7, 8, 10, 11, 100, 101, 150)],
+    layout_inputs = {"i32": [("i", x) for x in (-5, 0, 3, 4, 7, 8, 10, 11, 49, 50, 99, 100, 101, 150, 1000)],
                      "String": [("s", x) for x in ["", "a", " ab ", "AB", "ab1", " Zz ", "abc"]],
                      "f64": [("f", x) for x in (0, 1 << 63, 0x401C000000000000, 0xC01C000000000000, 0x7FF0000000000000, 0x7FF8000000000000, 0x3FF0000000000000)]}
 
@@ -1700,6 +1730,10 @@ def nostd_extra_modules():
          "pub struct P<T: Default + PartialEq>(T);\n    use super::rt::CErr;\n    fn chk<T: Default + PartialEq>(v: &T) -> Result<(), CErr> { if *v == T::default() { Err(CErr(0)) } else { Ok(()) } }"),
         ("#[nutype(const_fn, validate(greater = 0), derive(Debug, Clone, Copy, PartialEq, Eq, PartialOrd, Ord, Hash, FromStr, Display, TryFrom, Into, AsRef, Deref, Borrow, Default), default = 1)]", "pub struct P(i64);"),
         ("#[nutype(validate(predicate = |v| !v.is_empty()), derive(Debug, Clone, PartialEq, AsRef, Deref, TryFrom, Serialize, Deserialize))]", "pub struct P<T>(Vec<T>) where T: Ord;"),
+        ("#[nutype(validate(predicate = |p| p.x >= 0), default = Pt { x: 0, y: 0 }, derive(Debug, Clone, PartialEq, Default, AsRef))]",
+         "pub struct P(Pt);\n    #[derive(Debug, Clone, PartialEq)] pub struct Pt { pub x: i32, pub y: i32 }"),
+        ("#[nutype(validate(greater = 0), default = { if cfg!(debug_assertions) { 4 } else { 5 } }, derive(Debug, Clone, PartialEq, Default))]", "pub struct P(i32);"),
+        ("#[nutype(sanitize(with = |v: f32| { if v < 0.0 { 0.0 } else { v } }), validate(finite), default = match 1 { 1 => 1.5, _ => 2.5 }, derive(Debug, Clone, PartialEq, Default))]", "pub struct P(f32);"),
         ("#[nutype(validate(predicate = |v| !v.0.is_empty()), derive(Debug, Clone, PartialEq, AsRef, Deref, TryFrom))]", "pub struct P<'a, T: Clone>((alloc::borrow::Cow<'a, str>, T));"),
         ("#[nutype(sanitize(with = |mut v: alloc::collections::BTreeMap<K, V>| { v.retain(|_, x| *x != V::default()); v }), derive(Debug, Clone, PartialEq, AsRef, Deref, From, IntoIterator))]",
          "pub struct P<K: Ord, V: Default + PartialEq>(alloc::collections::BTreeMap<K, V>);"),
